@@ -29,13 +29,6 @@ const SCALING_EVERY: u64 = 4096;
 const DECODE_FACTOR: u32 = 10;
 const FOLLOWUP_FACTOR: u32 = 25;
 
-/// Path of the harness binary built with coset's `std` feature (COSIM_STD_EXE overrides it, for
-/// sweeps that run from a private copy of the binaries).
-fn std_exe() -> &'static str {
-    static P: std::sync::OnceLock<String> = std::sync::OnceLock::new();
-    P.get_or_init(|| std::env::var("COSIM_STD_EXE").unwrap_or_else(|_| "/verif/target/std/release/cosim".to_string()))
-}
-
 /// CPU time consumed by the calling thread (CLOCK_THREAD_CPUTIME_ID).  Unlike wall-clock time it
 /// does not grow while the thread is descheduled, so a loaded machine cannot fake a slow
 /// operation.
@@ -444,12 +437,6 @@ impl Engine for C01 {
     }
     fn death_invariant(&self) -> String {
         "C01.node-died".into()
-    }
-    fn configurations(&self) -> Vec<Config> {
-        vec![
-            Config { name: "std:off", exe: None, share: (1, 1) },
-            Config { name: "std:on", exe: Some(std_exe()), share: (1, 4) },
-        ]
     }
     fn gen(&self, seed: u64, run: u64, tier: Tier) -> Trace {
         let mut rng = Rng::for_run(seed, run, "C01");
